@@ -61,6 +61,41 @@ func oracleSpecNameRow(idx int, line []byte, seed int64, col *collector) {
 		col.add(m)
 	}
 	kind := nameKinds[row.Kind]
+	// "L" is a filler that makes the generated FILE name exactly NAME_MAX (255) bytes long: the longest
+	// name a directory can hold, still a legal single component
+	nL := 0
+	for _, t := range row.ID {
+		if t == "L" {
+			nL++
+		}
+	}
+	fills := make([]int, nL)
+	if nL > 0 {
+		rest := 0
+		for _, t := range row.File {
+			if t != "L" {
+				rest += len(nameTok(t))
+			}
+		}
+		budget := 255 - rest
+		for i := range fills {
+			fills[i] = budget / nL
+		}
+		fills[0] += budget % nL
+	}
+	joinToks := func(ts []string) string {
+		var b strings.Builder
+		k := 0
+		for _, t := range ts {
+			if t == "L" {
+				b.WriteString(strings.Repeat("l", fills[k]))
+				k++
+				continue
+			}
+			b.WriteString(nameTok(t))
+		}
+		return b.String()
+	}
 	id := joinToks(row.ID)
 	wantName, wantFile := joinToks(row.Name), joinToks(row.File)
 	raw := &specs.Spec{Version: "0.6.0", Kind: kind, Devices: []specs.Device{{Name: "dev", ContainerEdits: specs.ContainerEdits{Env: []string{"A=b"}}}}}
